@@ -1054,9 +1054,14 @@ class ExcelCompiler:
         iterations = iterations or self.cycles['iterations'] or 10000
         tolerance = tolerance or self.cycles['tolerance'] or 0.01
 
-        if list_like(address) and not isinstance(address, (tuple, list)):
+        def reusable(addr):
             # every pass needs to see all of the addresses of an iterable
-            address = tuple(address)
+            if list_like(addr):
+                return (type(addr) if isinstance(addr, (tuple, list))
+                        else tuple)(reusable(a) for a in addr)
+            return addr
+
+        address = reusable(address)
 
         progress_tracker = iterative_eval_tracker(iterations, tolerance)
         while True:
